@@ -129,6 +129,41 @@ func (s *State) assume(t *Term) {
 	s.pc = append(s.pc, t)
 }
 
+// decided: the truth value of cond follows syntactically from the path condition — it (or its negation) is one
+// of the assumed literals, or is forced by a two-literal clause whose other literal is refuted by one.
+func (s *State) decided(c *Ctx, cond *Term) (bool, bool) {
+	neg := c.Not(cond)
+	lits := make(map[*Term]bool, len(s.pc))
+	for _, a := range s.pc {
+		lits[a] = true
+	}
+	if lits[cond] {
+		return true, true
+	}
+	if lits[neg] {
+		return false, true
+	}
+	for _, a := range s.pc {
+		if a.Op != OOr || len(a.Args) != 2 {
+			continue
+		}
+		for i := 0; i < 2; i++ {
+			x, y := a.Args[i], a.Args[1-i]
+			if !lits[c.Not(y)] {
+				continue
+			}
+			// y is refuted, so x holds
+			if x == cond {
+				return true, true
+			}
+			if x == neg {
+				return false, true
+			}
+		}
+	}
+	return false, false
+}
+
 type frame struct {
 	fn    *ssa.Function
 	regs  map[ssa.Value]Value
@@ -489,6 +524,15 @@ func (e *Engine) runFrom(fr *frame, b *ssa.BasicBlock, idx int, st *State, k con
 			}
 			if cond.IsFalse() {
 				e.runBlock(fr, b.Succs[1], b, st, k)
+				return
+			}
+			// a branch whose condition (or its negation) is literally among the path facts is not a fork
+			if v, known := st.decided(c, cond); known {
+				if v {
+					e.runBlock(fr, b.Succs[0], b, st, k)
+				} else {
+					e.runBlock(fr, b.Succs[1], b, st, k)
+				}
 				return
 			}
 			e.countPath()
